@@ -241,6 +241,18 @@ def engine_choice(ctx):
         ctx.check(ok, R, f'direct-engine#{n_dr}', ctx.where(fa, e),
                   found=[(T.show(c), p) for c, p in e.guards], expected='constructed only under not fill_lower',
                   reason='square storage must be read as stored')
+    # the engine class chosen first and constructed once:  (Fill if fill_lower else Direct)(...)
+    for e in fa.events:
+        if e.kind != 'call' or e.d.get('in_lambda') or e.f[0] != 'ite' or {e.f[2], e.f[3]} != {FL, DR}:
+            continue
+        if e.under(V('as_pixels')):
+            continue
+        n_fl += 1
+        n_dr += 1
+        ok = (e.f[1] == fill and e.f[2] == FL) or (e.f[1] == T.not_(fill) and e.f[2] == DR)
+        ctx.check(ok, R, f'engine-class-choice#{n_fl}', ctx.where(fa, e), found=e.f,
+                  expected='FillLowerRangeQuery2D if fill_lower else DirectRangeQuery2D',
+                  reason='symmetric completion must be generated exactly when fill_lower holds')
     if n_fl < 1 or n_dr < 1:
         ctx.unrec(R, 'engine-sites', ctx.where(fa), found=f'{n_fl} fill-lower, {n_dr} direct',
                   reason='expected the matrix output to be produced by a fill-lower engine and by a direct engine')
